@@ -352,6 +352,13 @@ def _run(tok):
     # C04
     if op == "mn_from_ent":
         return sx(bip39.mnemonic_from_entropy(unstr(a[0])))
+    if op == "mn_slen":
+        return str(bip39.mnemonic_sentence_length(int(a[0])))
+    if op == "mn_cslen":
+        return str(bip39.checksum_length(int(a[0])))
+    if op == "mn_bits_ok":
+        bip39.correct_entropy_bits_value(int(a[0]))
+        return "1"
     if op == "mn_new":
         with _Urandom(unhex(a[0])):
             return sx(bip39.mnemonic_from_entropy_bits(int(a[1])))
@@ -514,6 +521,9 @@ def _run(tok):
             data = None
         elif a[2] == "empty":
             data = {}
+        elif a[2].startswith("p:"):
+            _, acct, lo, hi = a[2].split(":")
+            data = cli.paranoia_mode(w.generate(account=int(acct), interval=(int(lo), int(hi))))
         else:
             acct, lo, hi = a[2].split(":")
             data = w.generate(account=int(acct), interval=(int(lo), int(hi)))
@@ -562,6 +572,19 @@ def cli_run(fs, osbytes, argv, keep=None):
             os.mkdir(path)
         elif fs == "noparent":
             path = os.path.join(tmp, "missing", "out.json")
+        # files that already live next to the target (editor back-ups, temporary and look-alike names): whatever the
+        # program does, every one of them must be byte-identical afterwards
+        sib_dir = os.path.dirname(path)
+        siblings = {}
+        if fs in ("absent", "file") and os.path.isdir(sib_dir):
+            base = os.path.basename(path)
+            for nm in (base + ".tmp", base + "~", base + ".bak", base + ".new", base + ".part", base + ".lock",
+                       "." + base + ".swp", "." + base + ".tmp", base[:-5] + ".tmp", base[:-5], "tmp", "wallet.json"):
+                sp = os.path.join(sib_dir, nm)
+                if not os.path.exists(sp):
+                    siblings[nm] = "SIBLING " + nm
+                    with open(sp, "w") as f:
+                        f.write(siblings[nm])
         real = [path if t == "@F" else t for t in argv]
         out, err = io.StringIO(), io.StringIO()
         saved_argv = sys.argv
@@ -578,7 +601,12 @@ def cli_run(fs, osbytes, argv, keep=None):
         finally:
             sys.argv = saved_argv
         stdout = out.getvalue()
-        listing = sorted(os.listdir(tmp))
+        for nm, content in siblings.items():
+            sp = os.path.join(sib_dir, nm)
+            if not os.path.isfile(sp) or open(sp).read() != content:
+                return "existing-sibling-file-changed %s" % nm, {"status": status, "stdout": stdout, "created": None,
+                                                                  "stderr": "", "sibling": nm}
+        listing = sorted(x for x in os.listdir(tmp) if x not in siblings)
         created = None
         if fs == "file":
             if open(path).read() != "EXISTING":
